@@ -10,7 +10,7 @@
     * [history_sim], [history_from_empty]: any history obeying the rules, by induction on the
       list of calls. *)
 From CJ Require Import Base Dbl Heap Forest ForestLemmas CoreSpec CoreDefs CoreRefineBase CoreRefine
-  CoreRefineDelete CoreRefineReplace CoreRefineMore.
+  CoreRefineDelete CoreRefineReplace CoreRefineMore CoreRefineFrame.
 From stdpp Require Import gmap.
 Implicit Types (h : heap) (F : forest) (p x y r : positive) (d : rdata).
 Local Open Scope Z_scope.
@@ -222,90 +222,128 @@ Section History.
   (** ONE STEP: the code returns what the model returns and re-establishes the representation *)
   Lemma step_sim h S o :
     Abs h S -> pre_ok S o ->
-    exists h', run_op o h = Ret ((spec_step S o).2, h') /\ Abs h' (spec_step S o).1.
+    exists h', run_op o h = Ret ((spec_step S o).2, h') /\ Abs h' (spec_step S o).1 /\
+               Frame h h' (as_forest S) (as_forest (spec_step S o).1).
   Proof.
     intros (W & NL & Hnext & Hreq) Hpre. destruct S as [F nx rq]. cbn in W, NL, Hnext, Hreq.
     pose proof (wf_nodup _ _ W) as ND.
+    assert (Hsame : forall r : res, exists h', ret r h = Ret (r, h') /\ Abs h' (mkAS F nx rq) /\ Frame h h' F F).
+    { intros r. exists h. split; [done|]. split; [by unfold Abs|by apply Frame_refl]. }
     destruct o as [ty|a i|pa it|a w|a w n|pa it rp|a w n|it|a w|a|a i]; cbn [pre_ok as_forest] in Hpre;
       cbn [run_op spec_step as_forest as_next as_req].
     - (* create *)
       subst. destruct (oracle (h_req h)) eqn:Ho.
       + exists (bump h). rewrite (bindM_Ret _ _ _ _ _ (create_with_type_fail _ _ _ Ho)). cbn [fst snd].
-        split; [done|]. unfold Abs. cbn [as_forest as_next as_req]. split_and!; [by apply WF_bump|by apply NoLeak_bump|done|done].
+        split; [done|]. unfold Abs. cbn [as_forest as_next as_req].
+        split_and!; [by apply WF_bump|by apply NoLeak_bump|done|done|].
+        apply Frame_grow; cbn; try done. by left.
       + exists (alloc_typed h ty). rewrite (bindM_Ret _ _ _ _ _ (create_with_type_ok _ _ _ Ho)). cbn [fst snd].
-        split; [done|]. unfold Abs. cbn [as_forest as_next as_req]. split_and!; [by apply WF_alloc_typed|by apply NoLeak_alloc_typed|done|done].
+        split; [done|]. unfold Abs. cbn [as_forest as_next as_req].
+        split_and!; [by apply WF_alloc_typed|by apply NoLeak_alloc_typed|done|done|].
+        apply Frame_grow; cbn.
+        * intros b Hb. unfold spec_create, owned. rewrite flat_app, owned_fl_app. apply elem_of_app. by left.
+        * done.
+        * intros b Hb. set_solver.
+        * intros b Hb. by rewrite lookup_insert_ne.
+        * lia.
+        * intros e He. unfold spec_create in He. rewrite datas_app in He. apply elem_of_app in He as [He|He]; [by left|].
+          right. cbn in He. apply elem_of_list_singleton in He as ->. done.
     - (* add *)
       destruct Hpre as [Href|(p & x & -> & -> & Hpx & tx & d & cs & Hx & Hp & Hr)].
       + destruct (add_item_to_array_refused F a i h Href) as [-> Hrun].
-        exists h. unfold cJSON_AddItemToArray. rewrite (bindM_Ret _ _ _ _ _ Hrun). by split.
+        unfold cJSON_AddItemToArray. rewrite (bindM_Ret _ _ _ _ _ Hrun). cbn [fst snd as_forest]; apply Hsame.
       + destruct (cJSON_AddItemToArray_sim h F p x tx d cs W Hpx Hx Hp Hr) as (-> & Hrun & W').
-        eexists. rewrite (bindM_Ret _ _ _ _ _ Hrun). split; [done|]. split_and!; [done| |done|done].
-        apply (NoLeak_upd_maps h F); [|done]. eapply owned_move_root; eauto. by rewrite <- Permutation_cons_append.
+        eexists. rewrite (bindM_Ret _ _ _ _ _ Hrun). split; [done|].
+        assert (HD : datas (set_children p (cs ++ [tx]) (remove_root x F)) ≡ₚ datas F).
+        { eapply datas_move_root; eauto. by rewrite <- Permutation_cons_append. }
+        split; [|by apply Frame_upd_maps]. split_and!; [done| |done|done].
+        apply (NoLeak_upd_maps h F); [|done]. by rewrite !owned_datas, HD.
     - (* detach *)
       destruct Hpre as [Hnull|(p & x & d & cs & -> & -> & Hp & [(k & tx & Hk & Htx)|[Hr Hx]])].
       + destruct (cJSON_DetachItemViaPointer_null F pa it h Hnull) as [-> Hrun].
-        exists h. rewrite (bindM_Ret _ _ _ _ _ Hrun). by split.
+        rewrite (bindM_Ret _ _ _ _ _ Hrun). cbn [fst snd as_forest]; apply Hsame.
       + destruct (cJSON_DetachItemViaPointer_sim h F p x d cs k tx W Hp Hk Htx) as (-> & Hrun & W').
-        eexists. rewrite (bindM_Ret _ _ _ _ _ Hrun). split; [done|]. split_and!; [done| |done|done].
-        apply (NoLeak_upd_maps h F); [|done]. by eapply owned_detach.
+        eexists. rewrite (bindM_Ret _ _ _ _ _ Hrun). split; [done|].
+        pose proof (datas_detach F p d cs k tx ND Hp Hk) as HD.
+        split; [|by apply Frame_upd_maps]. split_and!; [done| |done|done].
+        apply (NoLeak_upd_maps h F); [|done]. by rewrite !owned_datas, HD.
       + destruct (cJSON_DetachItemViaPointer_refused h F p x d cs W Hp Hr Hx) as [-> Hrun].
-        exists h. rewrite (bindM_Ret _ _ _ _ _ Hrun). by split.
+        rewrite (bindM_Ret _ _ _ _ _ Hrun). cbn [fst snd as_forest]; apply Hsame.
     - (* detach by index *)
       destruct Hpre as (p & d & cs & -> & Hp & Hr).
       destruct (decide (w < 0 \/ (length cs <= Z.to_nat w)%nat)) as [Hout|Hin].
       + destruct (cJSON_DetachItemFromArray_refused h F p d cs w W Hp Hr Hout) as [-> Hrun].
-        exists h. rewrite (bindM_Ret _ _ _ _ _ Hrun). by split.
+        rewrite (bindM_Ret _ _ _ _ _ Hrun). cbn [fst snd as_forest]; apply Hsame.
       + destruct (cs !! Z.to_nat w) as [tx|] eqn:Hk; [|apply lookup_ge_None in Hk; lia].
         destruct (cJSON_DetachItemFromArray_sim h F p d cs w tx W Hp Hr ltac:(lia) Hk) as (-> & Hrun & W').
-        eexists. rewrite (bindM_Ret _ _ _ _ _ Hrun). split; [done|]. split_and!; [done| |done|done].
-        apply (NoLeak_upd_maps h F); [|done]. by eapply owned_detach.
+        eexists. rewrite (bindM_Ret _ _ _ _ _ Hrun). split; [done|].
+        pose proof (datas_detach F p d cs _ tx ND Hp Hk) as HD.
+        split; [|by apply Frame_upd_maps]. split_and!; [done| |done|done].
+        apply (NoLeak_upd_maps h F); [|done]. by rewrite !owned_datas, HD.
     - (* insert *)
       destruct Hpre as [Href|(p & x & -> & -> & Hw & Hpx & tx & d & cs & Hx & Hp & Hr)].
       + destruct (cJSON_InsertItemInArray_refused F a w n h Href) as [-> Hrun].
-        exists h. rewrite (bindM_Ret _ _ _ _ _ Hrun). by split.
+        rewrite (bindM_Ret _ _ _ _ _ Hrun). cbn [fst snd as_forest]; apply Hsame.
       + destruct (decide (Z.to_nat w < length cs)%nat) as [Hlt|Hge].
         * destruct (cJSON_InsertItemInArray_sim_before h F p x tx d cs w W Hpx Hx Hp Hr Hw Hlt) as (-> & Hrun & W').
-          eexists. rewrite (bindM_Ret _ _ _ _ _ Hrun). split; [done|]. split_and!; [done| |done|done].
-          apply (NoLeak_upd_maps h F); [|done]. eapply owned_move_root; eauto. apply insert_at_perm.
+          eexists. rewrite (bindM_Ret _ _ _ _ _ Hrun). split; [done|].
+          assert (HD : datas (set_children p (insert_at (Z.to_nat w) tx cs) (remove_root x F)) ≡ₚ datas F).
+          { eapply datas_move_root; eauto. apply insert_at_perm. }
+          split; [|by apply Frame_upd_maps]. split_and!; [done| |done|done].
+          apply (NoLeak_upd_maps h F); [|done]. by rewrite !owned_datas, HD.
         * destruct (cJSON_InsertItemInArray_sim_append h F p x tx d cs w W Hpx Hx Hp Hr Hw ltac:(lia)) as (-> & Hrun & W').
-          eexists. rewrite (bindM_Ret _ _ _ _ _ Hrun). split; [done|]. split_and!; [done| |done|done].
-          apply (NoLeak_upd_maps h F); [|done]. eapply owned_move_root; eauto. by rewrite <- Permutation_cons_append.
+          eexists. rewrite (bindM_Ret _ _ _ _ _ Hrun). split; [done|].
+          assert (HD : datas (set_children p (cs ++ [tx]) (remove_root x F)) ≡ₚ datas F).
+          { eapply datas_move_root; eauto. by rewrite <- Permutation_cons_append. }
+          split; [|by apply Frame_upd_maps]. split_and!; [done| |done|done].
+          apply (NoLeak_upd_maps h F); [|done]. by rewrite !owned_datas, HD.
     - (* replace *)
       destruct Hpre as [->|[(p & d & cs & -> & Hp & Hr & Hcase)|(p & y & r & tr & ty & d & cs & k & -> & -> & -> & Hrt & Hp & Hk & Hy)]].
-      + exists h. by split.
+      + cbn [fst snd as_forest]; apply Hsame.
       + destruct (decide (cs = [] \/ it = None \/ rp = None)) as [Hrf|Hnrf].
         * destruct (cJSON_ReplaceItemViaPointer_refused h F p d cs it rp W Hp Hr Hrf) as [-> Hrun].
-          exists h. rewrite (bindM_Ret _ _ _ _ _ Hrun). by split.
+          rewrite (bindM_Ret _ _ _ _ _ Hrun). cbn [fst snd as_forest]; apply Hsame.
         * destruct Hcase as [?|[?|[?|(Hne & <- & Hit)]]]; try tauto. destruct it as [y|]; [|done].
           destruct (cJSON_ReplaceItemViaPointer_same h F p d cs y W Hp Hr Hne) as [-> Hrun].
-          exists h. rewrite (bindM_Ret _ _ _ _ _ Hrun). by split.
+          rewrite (bindM_Ret _ _ _ _ _ Hrun). cbn [fst snd as_forest]; apply Hsame.
       + destruct (cJSON_ReplaceItemViaPointer_sim h F p y r tr ty d cs k W Hrt Hp Hk Hy) as (-> & Hrun & W' & NL').
         eexists. rewrite (bindM_Ret _ _ _ _ _ Hrun). split; [done|].
-        split_and!; [done|by apply NL'|by rewrite free_all_next|by rewrite free_all_req].
+        split; [split_and!; [done|by apply NL'|by rewrite free_all_next|by rewrite free_all_req]|].
+        apply (Frame_free_all h F _ _ _ _ (datas [ty])); [done| |apply free_order_datas].
+        rewrite <- datas_snoc_root. symmetry. by eapply datas_replace.
     - (* replace by index *)
       destruct Hpre as (p & r & tr & ty & d & cs & -> & -> & Hw & Hrt & Hp & Hk).
       destruct (cJSON_ReplaceItemInArray_sim h F p r tr ty d cs w W Hrt Hp Hw Hk) as (-> & Hrun & W' & NL').
       eexists. rewrite (bindM_Ret _ _ _ _ _ Hrun). split; [done|].
-      split_and!; [done|by apply NL'|by rewrite free_all_next|by rewrite free_all_req].
+      split; [split_and!; [done|by apply NL'|by rewrite free_all_next|by rewrite free_all_req]|].
+      apply (Frame_free_all h F _ _ _ _ (datas [ty])); [done| |apply free_order_datas].
+      rewrite <- datas_snoc_root. symmetry. by eapply datas_replace.
     - (* delete *)
       destruct Hpre as [->|(x & tx & -> & Hx)].
-      + exists h. rewrite (bindM_Ret _ _ _ _ _ (cJSON_Delete_null h)). by split.
+      + rewrite (bindM_Ret _ _ _ _ _ (cJSON_Delete_null h)). cbn [fst snd as_forest]; apply Hsame.
       + destruct (cJSON_Delete_sim h F x tx W Hx) as (_ & Hrun & W' & NL').
         eexists. rewrite (bindM_Ret _ _ _ _ _ Hrun). split; [done|].
-        split_and!; [done|by apply NL'|by rewrite free_all_next|by rewrite free_all_req].
+        split; [split_and!; [done|by apply NL'|by rewrite free_all_next|by rewrite free_all_req]|].
+        rewrite <- (upd_maps_id h) at 2.
+        apply (Frame_free_all h F _ _ _ _ (datas [tx])); [done| |apply free_order_datas].
+        by apply datas_remove_root.
     - (* delete by index *)
       destruct Hpre as (p & d & cs & tx & -> & Hp & Hr & Hw & Hk).
       destruct (cJSON_DeleteItemFromArray_sim h F p d cs w tx W Hp Hr Hw Hk) as (-> & Hrun & W' & NL').
       eexists. rewrite (bindM_Ret _ _ _ _ _ Hrun). split; [done|].
-      split_and!; [done|by apply NL'|by rewrite free_all_next|by rewrite free_all_req].
+      split; [split_and!; [done|by apply NL'|by rewrite free_all_next|by rewrite free_all_req]|].
+      apply (Frame_free_all h F _ _ _ _ (datas [tx])); [done| |apply free_order_datas].
+      rewrite <- datas_snoc_root. symmetry. by eapply datas_detach.
     - (* size *)
       destruct Hpre as [->|(p & d & cs & -> & Hp & Hr)].
-      + exists h. by split.
-      + exists h. rewrite (bindM_Ret _ _ _ _ _ (cJSON_GetArraySize_sim h F p d cs W Hp Hr)). by split.
+      + cbn [fst snd as_forest]; apply Hsame.
+      + rewrite (bindM_Ret _ _ _ _ _ (cJSON_GetArraySize_sim h F p d cs W Hp Hr)). cbn [fst snd as_forest]; apply Hsame.
     - (* get *)
       destruct Hpre as [->|(p & d & cs & -> & Hp & Hr)].
-      + exists h. split; [|done]. unfold cJSON_GetArrayItem, spec_get_array_item. cbn. by destruct (i <? 0).
-      + exists h. rewrite (bindM_Ret _ _ _ _ _ (cJSON_GetArrayItem_sim h F p d cs i W Hp Hr)). by split.
+      + assert (cJSON_GetArrayItem None i h = Ret (spec_get_array_item F None i, h)) as Hrun.
+        { unfold cJSON_GetArrayItem, spec_get_array_item. cbn. by destruct (i <? 0). }
+        rewrite (bindM_Ret _ _ _ _ _ Hrun). cbn [fst snd as_forest]; apply Hsame.
+      + rewrite (bindM_Ret _ _ _ _ _ (cJSON_GetArrayItem_sim h F p d cs i W Hp Hr)). cbn [fst snd as_forest]; apply Hsame.
   Qed.
 
   (** histories *)
@@ -326,7 +364,7 @@ Section History.
   Proof.
     induction ops as [|o r IH]; intros h S HA Hpre.
     - exists h. by split.
-    - destruct Hpre as [Hp Hr]. destruct (step_sim h S o HA Hp) as (h1 & Hrun & HA1).
+    - destruct Hpre as [Hp Hr]. destruct (step_sim h S o HA Hp) as (h1 & Hrun & HA1 & _).
       destruct (IH h1 _ HA1 Hr) as (h2 & Hrun2 & HA2). exists h2. split; [|exact HA2].
       cbn [run_ops spec_results]. rewrite (bindM_Ret _ _ _ _ _ Hrun). by rewrite (bindM_Ret _ _ _ _ _ Hrun2).
   Qed.
